@@ -413,6 +413,9 @@ func checkC07(c *ctx) {
 		c.Violation("C07 "+bad, false)
 		return
 	}
+	if !sparseLocations(c) {
+		return
+	}
 	// ---------- (B) random larger instances, (C) single-hit through merges, (D) reuse ----------
 	rounds := c.n(60, 1500)
 	for i := 0; i < rounds; i++ {
@@ -648,4 +651,77 @@ func pickTerm(c *ctx, spec sx.V) (string, string) {
 	fd := ds[c.R.Intn(len(ds))]
 	te := fd.L[1].L[c.R.Intn(len(fd.L[1].L))]
 	return string(fd.L[0].B), string(te.L[0].B)
+}
+
+// sparseLocations: (G) a term that occurs in every one of 12 documents but carries locations in only
+// one or two of them, so that whole chunks of its location stream are empty; chunk sizes 3, 4, 6, 12;
+// every single Advance target followed by Next calls, and random walks, with and without exclusions,
+// locations requested or not.
+func sparseLocations(c *ctx) bool {
+	const n = 12
+	for _, withLocs := range [][]int{{0}, {11}, {5}, {0, 11}, {3, 4}} {
+		var b zh.Batch
+		for d := 0; d < n; d++ {
+			t := zh.Tok{Term: "x", Freq: uint64(1 + d%4)}
+			for _, w := range withLocs {
+				if w == d {
+					t.Locs = []zh.Loc{{Pos: uint64(d + 1), Start: 0, End: 1}, {Pos: uint64(d + 2), Start: 2, End: 3}}
+				}
+			}
+			b = append(b, zh.Doc{Fields: []zh.Field{zh.IDField(fmt.Sprintf("s%02d", d)),
+				{Name: "body", Len: uint64(3 + d), Toks: []zh.Tok{t, {Term: "y", Freq: 1}}}}})
+		}
+		spec, err := zh.SpecOf(c.M, b)
+		mustH(err)
+		hits := hitsOf(spec, "body", "x")
+		for _, cs := range []uint32{3, 4, 6, 12} {
+			sb, _, err := zh.Build(b, cs)
+			must(err)
+			var seg segment.Segment = sb
+			if c.R.Bool() {
+				s, _, err := zh.PersistOpen(sb)
+				must(err)
+				seg = s
+			}
+			var runs []iterRun
+			for _, except := range [][]uint64{nil, {1}, {4, 5}, {2, 7, 8}} {
+				ex := map[uint64]bool{}
+				for _, d := range except {
+					ex[d] = true
+				}
+				var live []uint64
+				for d := uint64(0); d < n; d++ {
+					if !ex[d] {
+						live = append(live, d)
+					}
+				}
+				for _, l := range []bool{true, true, false} {
+					base := iterRun{exceptNil: except == nil, except: except, f: true, n: true, l: l}
+					for t := uint64(1); t < n; t++ {
+						r := base
+						r.ops = []uint64{t, 0, 0}
+						if t > 2 && c.R.Bool() {
+							r.ops = []uint64{0, t, 0, 0}
+						}
+						runs = append(runs, r)
+					}
+					for k := 0; k < 4; k++ {
+						r := base
+						r.ops = randSeq(c, live, n, 6)
+						runs = append(runs, r)
+					}
+				}
+			}
+			c.Case(fmt.Sprintf("sparse-locs-%v-%d", withLocs, cs), true)
+			c.Count("sparse_location_runs")
+			ok := compareRuns(c, seg, cs, n, "body", "x", hits, runs, nil, fmt.Sprintf("a term in all of 12 documents with locations only in documents %v (empty location chunks), chunk size %d", withLocs, cs))
+			if s, isSeg := seg.(*zap.Segment); isSeg {
+				s.Close()
+			}
+			if !ok {
+				return false
+			}
+		}
+	}
+	return true
 }
